@@ -45,7 +45,7 @@ enum OpKind : uint16_t {
   kArenaReset, kArenaStats,
   kStrAssign, kStrAppend, kStrAssignChars, kStrAppendChars, kStrAppendNumber, kStrAppendHex, kStrFormat, kStrPadEnd,
   kStrTruncate, kStrClear, kStrReset, kStrSwap, kStrMoveAssign, kStrEquals, kStrAssignSpan,
-  kAStrSet,
+  kAStrSet, kHashSwap,
   kOpCount
 };
 
@@ -62,7 +62,7 @@ const char* const kOpNames[kOpCount] = {
   "arena_reset", "arena_stats",
   "str_assign", "str_append", "str_assign_chars", "str_append_chars", "str_append_number", "str_append_hex", "str_format", "str_pad_end",
   "str_truncate", "str_clear", "str_reset", "str_swap", "str_move_assign", "str_equals", "str_assign_span",
-  "astr_set"
+  "astr_set", "hash_swap"
 };
 
 const char* op_name(uint16_t k) { return k < kOpCount ? kOpNames[k] : "?"; }
@@ -126,6 +126,8 @@ struct World {
 
   ArenaHash<HNode> hash;
   std::map<uint32_t, HNode*> hash_model;
+  ArenaHash<HNode> hash_spare;                  // swapped with `hash` by hash_swap; holds whatever `hash` held before
+  std::map<uint32_t, HNode*> hash_spare_model;
   uint32_t hash_mask = 0xffffffffu;
 
   ArenaTree<TNode> tree;
@@ -351,6 +353,7 @@ void check_all(World& w) {
 void arena_was_reset(World& w) {
   for (auto& v : w.vecs) v->drop();
   w.hash.reset(); w.hash_model.clear();
+  w.hash_spare.reset(); w.hash_spare_model.clear();
   w.tree.reset(); w.tree_model.clear();
   w.list.reset(); w.list_model.clear();
   for (int i = 0; i < 2; i++) { w.bits[i].reset(); w.bits_model[i].clear(); }
@@ -414,6 +417,7 @@ void exec_op(World& w, const Op& op) {
       break;
     }
     case kHashRelease: { w.hash.release(arena); w.hash_model.clear(); check_hash(w); break; }
+    case kHashSwap: { sim::logf("hash_swap %zu <-> %zu entries", w.hash.size(), w.hash_spare.size()); w.hash.swap(w.hash_spare); w.hash_model.swap(w.hash_spare_model); check_hash(w); break; }
 
     case kTreeInsert: {
       uint32_t key = uint32_t(op.a[0]);
@@ -825,7 +829,7 @@ Plan generate(uint64_t seed, bool thorough) {
         op.a[0] = int64_t(r.below(8)); op.a[1] = int64_t(val_counter++ * 0x10001ull + r.below(7)); op.a[2] = int64_t(op.kind == kVecResize || op.kind == kVecReserve ? gen_size(r) % 5000 : r.below(4096)); op.a[3] = int64_t(r.below(6));
         break;
       }
-      case 1: { static const uint16_t ks[] = {kHashInsert, kHashInsert, kHashInsert, kHashRemove, kHashGet, kHashGet, kHashRelease}; op.kind = r.pick(ks); if (op.kind == kHashRelease && !r.chance(1, 6)) op.kind = kHashInsert; op.a[0] = int64_t(r.below(key_space)); break; }
+      case 1: { static const uint16_t ks[] = {kHashInsert, kHashInsert, kHashInsert, kHashRemove, kHashGet, kHashGet, kHashRelease, kHashSwap}; op.kind = r.pick(ks); if (op.kind == kHashRelease && !r.chance(1, 6)) op.kind = kHashInsert; op.a[0] = int64_t(r.below(key_space)); break; }
       case 2: {
         static const uint16_t ks[] = {kTreeInsert, kTreeInsert, kTreeInsert, kTreeRemove, kTreeRemove, kTreeGet}; op.kind = r.pick(ks);
         if (op.kind == kTreeInsert && tree_pattern == 1) op.a[0] = int64_t(tree_next++); else if (op.kind == kTreeInsert && tree_pattern == 2) op.a[0] = int64_t(tree_next--); else op.a[0] = int64_t(r.below(key_space));
